@@ -551,6 +551,49 @@ def run(prop, tier, seed):
                 binary = dict(scenarios=len(bscs), requests=sum(1 for e in bevents if e["ev"] == "Respond"), releases=sum(1 for e in bevents if e["ev"] == "Release"),
                               restarts=sum(1 for e in bevents if e["ev"] == "Restart"))
                 remote_lookup = {sid_: v for sid_, v in bmeta.items()}
+        # generic BATCHES (Multisign) whose entries carry different domain types: every ordered pair of domain classes in one request,
+        # so that a verdict taken for one position cannot stand in for another
+        mix_scs = []
+        if prop == "C05":
+            conc0 = concs[0][1]
+            doms = sorted({row["dom"] for row in table["gen"]})
+            pairs_ = [(d1, d2) for d1 in doms for d2 in doms if d1 != d2 and ({d1, d2} & {"att", "prop", "exit", "shift4:att", "shift4:prop", "att2", "prop2"})]
+            for i in range(0, len(pairs_), 40):
+                ops = [dict(id="m%d" % j, kind="multi", ents=[dict(k=0, root="A", dom=d1), dict(k=1, root="B", dom=d2), dict(k=2, root="C", dom=d1)])
+                       for j, (d1, d2) in enumerate(pairs_[i:i + 40])]
+                mix_scs.append(dict(id="C05-mixed-%d" % (i // 40), world=dict(nkeys=3), conc=conc0, ops=ops))
+            mev, mrc, merr = run_driver(mix_scs, wd, tag="mixed", timeout=300)
+            if mrc != 0:
+                raise Inconclusive("mixed generic batches: driver exited %s: %s" % (mrc, merr[-300:]))
+            mby = split_scenarios(mev)
+            for sc_ in mix_scs:
+                start = len(lines) + 1
+                project_one(sc_["id"], {}, [], mby[sc_["id"]], lines)
+                index.append((start, len(lines), sc_["id"]))
+            nsc += len(mix_scs)
+        # "repeat a key inside a batch": both requests of a conflicting pair in ONE batch, the key named twice (by name, by public key,
+        # by padded key in every combination), next to an unrelated entry; followed by the same pair one at a time
+        dup_scs = []
+        if prop == "C01" and "attpairs" in table:
+            conc0 = concs[0][1]
+            hotd = sorted((q for q in table["attpairs"] if q["v1"] == "APPROVED"), key=lambda q: json.dumps(q, sort_keys=True))
+            for qi, q in enumerate(rnd.sample(hotd, min(len(hotd), 60 if tier == "quick" else 600))):
+                bys = [("name", "name"), ("name", "key"), ("key", "keypad"), ("keypad", "name")][qi % 4]
+                e1 = dict(k=0, s=q["s1"], t=q["t1"], root=q["r1"], by=bys[0])
+                e2 = dict(k=0, s=q["s2"], t=q["t2"], root=q["r2"], by=bys[1])
+                other = dict(k=1, s=0, t=1, root="A")
+                ents = [[e1, e2, other], [other, e1, e2], [e1, other, e2]][qi % 3]
+                dup_scs.append(dict(id="C01-dupkey-%d" % qi, world=dict(nkeys=2), conc=conc0,
+                                    ops=[dict(id="b", kind="atts", ents=ents), dict(id="x1", kind="att", ents=[dict(e1, by="name")]), dict(id="x2", kind="att", ents=[dict(e2, by="name")])]))
+            dev, drc, derr = run_driver(dup_scs, wd, tag="dupkey", timeout=300)
+            if drc != 0:
+                raise Inconclusive("repeated-key batches: driver exited %s: %s" % (drc, derr[-300:]))
+            dby = split_scenarios(dev)
+            for sc_ in dup_scs:
+                start = len(lines) + 1
+                project_one(sc_["id"], {}, [], dby[sc_["id"]], lines)
+                index.append((start, len(lines), sc_["id"]))
+            nsc += len(dup_scs)
         # the write of the record fails (injected storage error that persists over retries) for a request AND for its conflicting twin:
         # a lifetime that includes a full disk or a store being closed must not contain both signatures either
         fault_scs = []
@@ -615,7 +658,7 @@ def run(prop, tier, seed):
                 for s in b.scenarios:
                     if s["id"] == sid:
                         sc, smeta, sfloors = s, b.meta[sid], b.expect[sid]["floors"]
-            for s in race_scs + fault_scs:
+            for s in race_scs + fault_scs + dup_scs + mix_scs:
                 if s["id"] == sid:
                     sc, smeta, sfloors = s, {}, []
             if binary and sid in remote_lookup:
